@@ -89,3 +89,48 @@ Definition concrete_transparent_crate R db stmt exec apply inval cap dom :=
   concrete_transparent R db stmt exec apply inval cap dom xt_select hid_select xt_exact.
 Definition concrete_transparent_adapter R db stmt exec apply inval cap dom :=
   concrete_transparent R db stmt exec apply inval cap dom ax_select ahid_select ax_exact.
+
+(** ** Example: the hypotheses of [concrete_transparent] are satisfiable by a non-trivial instance.
+    The database is the content of table T1 (one number); both queries are "SELECT * FROM t1" up to
+    white space and case; statement [(true, z)] writes [z] into T1 (the adapter invalidates "T1" for
+    it), statement [(false, _)] is a statement the adapter does not invalidate for and that changes
+    nothing. *)
+Definition ex_q1 : cquery := mkQ [83;69;76;69;67;84;32;42;32;70;82;79;77;32;116;49] (sel_from nT1).
+Definition ex_q2 : cquery := mkQ [115;101;108;101;99;116;32;32;42;10;102;114;111;109;32;84;49;32] (sel_from nT1).
+Definition ex_dom (q : cquery) : Prop := q = ex_q1 \/ q = ex_q2.
+Definition ex_exec (d : Z) (_ : cquery) : option Z := Some d.
+Definition ex_apply (d : Z) (s : bool * Z) : Z := if fst s then snd s else d.
+Definition ex_inval (s : bool * Z) : option tname := if fst s then Some [116; 49] else None.
+
+Example concrete_hypotheses_satisfiable :
+  (forall q1 q2, ex_dom q1 -> ex_dom q2 -> signature (q_text q1) = signature (q_text q2) ->
+                 normalize (q_text q1) = normalize (q_text q2)) /\
+  (forall q1 q2, ex_dom q1 -> ex_dom q2 -> same_query (q_text q1) (q_text q2) ->
+                 forall d, ex_exec d q1 = ex_exec d q2) /\
+  (forall d s q r, ex_dom q -> ex_exec d q = Some r ->
+     match ex_inval s with
+     | Some t => forall t', In t' (all_select (q_ast q)) -> ci_eqb t' t = false
+     | None => True
+     end -> ex_inval s <> None -> ex_exec (ex_apply d s) q = Some r) /\
+  (forall d s q r, ex_dom q -> ex_exec d q = Some r -> ex_inval s = None -> ex_exec (ex_apply d s) q = Some r) /\
+  (forall q, ex_dom q -> has_protected (q_text q) = false) /\
+  (forall q, ex_dom q -> hid_select (q_ast q) = []) /\
+  run Z Z.eqb Z Z cquery (bool * Z) ex_exec ex_apply sig_of (fun q => xt_select (q_ast q)) ex_inval 4 (5, [])
+      [(Read ex_q1, None); (Read ex_q2, None); (Write (false, 0), None); (Read ex_q1, None);
+       (Write (true, 9), None); (Read ex_q2, None); (Read ex_q1, None)]
+  = Some ((9, [(signature (q_text ex_q1), mkEntry 9 [nT1])]),
+          [Miss (Some 5); Hit 5; Wrote; Hit 5; Wrote; Miss (Some 9); Hit 9]).
+Proof.
+  refine (conj _ (conj _ (conj _ (conj _ (conj _ (conj _ _)))))).
+  - intros q1 q2 [H1|H1] [H2|H2] _; subst; vm_compute; reflexivity.
+  - intros q1 q2 _ _ _ d. reflexivity.
+  - intros d [[|] z] q r Hd Hx Hm Hn; cbn in *.
+    + exfalso. destruct Hd as [Hd|Hd]; subst q;
+        (assert (E : ci_eqb nT1 [116; 49] = false) by (apply Hm; vm_compute; left; reflexivity));
+        vm_compute in E; discriminate.
+    + exfalso. apply Hn. reflexivity.
+  - intros d [[|] z] q r _ Hx Hi; cbn in *; [discriminate|exact Hx].
+  - intros q [H|H]; subst; vm_compute; reflexivity.
+  - intros q [H|H]; subst; vm_compute; reflexivity.
+  - vm_compute. reflexivity.
+Qed.
